@@ -82,7 +82,7 @@ fn scalar_model(op: BinaryOp, a: &RV, b: &RV) -> M {
 
 fn element_pool(thorough: bool) -> Vec<RV> {
     let mut v: Vec<RV> = number_pool(thorough).into_iter().map(RV::Num).collect();
-    v.extend([RV::s(""), RV::s("a"), RV::s("b"), RV::Bool(true), RV::Bool(false), RV::Null]);
+    v.extend([RV::s(""), RV::s("a"), RV::s("b"), RV::s("ab"), RV::s("B"), RV::s("10"), RV::s("9"), RV::Bool(true), RV::Bool(false), RV::Null]);
     v.push(RV::List(vec![RV::Num(1.0)]));
     if thorough {
         v.push(RV::List(vec![]));
